@@ -252,7 +252,7 @@ func ruleR32() *Rule {
 	return &Rule{
 		ID:    "R32",
 		Title: "ONEHIT-CONDITIONS: a merged term is stored in the 1-hit encoding exactly under the documented conditions (one document, frequency exactly 1, no locations, 31-bit document number)",
-		Props: []string{"C06", "C08", "C09"},
+		Props: []string{"C06", "C08", "C09", "C01"},
 		Floor: floorFor("R32"),
 		Run: func(c *RuleCtx) {
 			wp := c.fn("writePostings")
@@ -399,7 +399,126 @@ func ruleR32() *Rule {
 				}
 			}
 			c.check(n >= 1, "closures", "-", "the 1-hit decision closure handed to writePostings is found", "not found")
+			r32OtherSites(c, wp)
 		},
+	}
+}
+
+// r32OtherSites (R32b): a 1-hit entry is read back as one posting with frequency 1. Every place besides
+// writePostings that makes such an entry therefore either re-encodes an entry it decoded from another
+// segment, or has found a frequency equal to 1 on every way there (directly, or through the answer of a
+// helper that answers yes only after finding that).
+func r32OtherSites(c *RuleCtx, wp *ssa.Function) {
+	enc := c.p.Func("FSTValEncode1Hit")
+	if enc == nil {
+		return
+	}
+	const evFreq1 = 1
+	isFreq := func(v ssa.Value) bool {
+		v = stripConv(v)
+		if _, fld, _, ok := loadedField(v); ok && (fld == "freq" || fld == "lastFreq") {
+			return true
+		}
+		if call, ok := v.(*ssa.Call); ok {
+			if f := call.Call.StaticCallee(); f != nil && f.Name() == "Frequency" {
+				return true
+			}
+		}
+		return false
+	}
+	var analyse func(fn *ssa.Function, depth int) *pathAnalysis
+	var helperYes func(call *ssa.Call, idx int, depth int) bool
+	analyse = func(fn *ssa.Function, depth int) *pathAnalysis {
+		pa := newPathAnalysis(fn, func(ssa.Instruction, uint64, bool) []uint64 { return nil })
+		pa.edgeTr = func(pred *ssa.BasicBlock, succIdx int, ev uint64) uint64 {
+			iff, ok := pred.Instrs[len(pred.Instrs)-1].(*ssa.If)
+			if !ok {
+				return ev
+			}
+			taken := succIdx == 0
+			cond := iff.Cond
+			for {
+				u, ok := cond.(*ssa.UnOp)
+				if !ok || u.Op != token.NOT {
+					break
+				}
+				cond, taken = u.X, !taken
+			}
+			switch x := cond.(type) {
+			case *ssa.BinOp:
+				for _, pr := range [][2]ssa.Value{{x.X, x.Y}, {x.Y, x.X}} {
+					if k, ok := constUint64(pr[1]); ok && k == 1 && isFreq(pr[0]) {
+						if (x.Op == token.EQL && taken) || (x.Op == token.NEQ && !taken) {
+							return ev | evFreq1
+						}
+					}
+				}
+			case *ssa.Extract:
+				if call, ok := x.Tuple.(*ssa.Call); ok && taken && depth < 2 && helperYes(call, x.Index, depth+1) {
+					return ev | evFreq1
+				}
+			case *ssa.Call:
+				if taken && depth < 2 && helperYes(x, 0, depth+1) {
+					return ev | evFreq1
+				}
+			}
+			return ev
+		}
+		pa.run(0)
+		return pa
+	}
+	helperYes = func(call *ssa.Call, idx int, depth int) bool {
+		h := call.Call.StaticCallee()
+		if h == nil || !c.p.InZap(h) || len(h.Blocks) == 0 {
+			return false
+		}
+		pa := analyse(h, depth)
+		n := 0
+		for _, ret := range returnsOf(h) {
+			if idx >= len(ret.Results) {
+				return false
+			}
+			if b, ok := constBool(ret.Results[idx]); ok && !b {
+				continue
+			}
+			n++
+			for _, ev := range pa.statesBefore(ret) {
+				if ev&evFreq1 == 0 {
+					return false
+				}
+			}
+		}
+		return n > 0
+	}
+	k := 0
+	for _, cs := range c.p.callersOf(enc) {
+		fn := cs.Parent()
+		if !c.p.InZap(fn) || fn == wp {
+			continue
+		}
+		k++
+		key := fmt.Sprintf("other-site/%s#%d", funcShortName(fn), k)
+		what := "the 1-hit entry made in " + funcShortName(fn) + " stands for a posting whose frequency is exactly 1 (it re-encodes a decoded 1-hit entry, or a frequency was found equal to 1 on every way there)"
+		// re-encoding: the norm bits come from FSTValDecode1Hit
+		if len(cs.Common().Args) == 2 {
+			if ex, ok := stripConv(cs.Common().Args[1]).(*ssa.Extract); ok {
+				if call, ok := ex.Tuple.(*ssa.Call); ok {
+					if f := call.Call.StaticCallee(); f != nil && f.Name() == "FSTValDecode1Hit" {
+						c.okP([]string{"C06", "C08", "C01"}, key, c.pos(cs), what)
+						continue
+					}
+				}
+			}
+		}
+		pa := analyse(fn, 0)
+		okc := len(pa.statesBefore(cs)) > 0
+		for _, ev := range pa.statesBefore(cs) {
+			if ev&evFreq1 == 0 {
+				okc = false
+			}
+		}
+		c.add(statusOf(okc), key, c.pos(cs), what,
+			"a way leads to this 1-hit entry on which no frequency was compared with 1: a posting with another frequency (or with frequency 0, which stores no norm) would read back with frequency 1", []string{"C06", "C08", "C01"}, nil)
 	}
 }
 
